@@ -105,8 +105,9 @@ func parseActs(tok string) (acts []dact, ph bool, ok bool) {
 		switch f[0] {
 		case "em", "ss", "wh", "rr", "rq":
 			d.n = intArg(1)
-		case "sh":
+		case "sh", "nr":
 			d.n = dxNatArg(arg(1), &bad)
+		case "hj":
 		case "nx", "ab", "dp", "kc":
 		case "pn":
 			d.pv = arg(1)
@@ -361,6 +362,7 @@ type dcase struct {
 	lostSeen bool
 	lastCtx  *rux.Context // a context this router handed out before (source of the contexts given to HandleContext)
 	dxRR     map[int]*rux.Route // the registered routes by id (targets of the `sh` action)
+	dn       dnState            // nested requests (action `nr`), see engine_dispatch_dn.go
 	kept     []*dKept     // copies kept by `kc`
 }
 
@@ -499,6 +501,7 @@ var zeroIdx = 0
 func (cs *dcase) runActs(c *rux.Context, acts []dact, pos string) {
 	if cs.curCtx == nil {
 		cs.curCtx = c
+		cs.dnInFlight(c)
 	} else if cs.curCtx != c && !cs.isTwin {
 		cs.oracle = append(cs.oracle, "harness: two different contexts within one request")
 	}
@@ -532,6 +535,10 @@ func (cs *dcase) runActs(c *rux.Context, acts []dact, pos string) {
 			}
 		case "sh":
 			cs.dxSetHandlers(c, a.n)
+		case "nr":
+			cs.dnNested(c, a.n, pos)
+		case "hj":
+			cs.dnHijack(c, pos)
 		case "st":
 			c.Set(a.a, a.b)
 		case "ae":
@@ -653,7 +660,7 @@ func routePattern(rt *droute) string {
 func (cs *dcase) config(f []string) string {
 	globalsBase := func() int { return 0 }
 	afterGlobals := func() int { return cs.nGlobals }
-	if f[0] != "route" && dxHasSH(f[1:]) {
+	if f[0] != "route" && (dxHasSH(f[1:]) || dnHasHJ(f[1:])) {
 		return "bad-op" // SetHandlers actions live in route handlers only (see Drv/Dispatch.lean)
 	}
 	switch f[0] {
@@ -815,6 +822,7 @@ func (cs *dcase) serve(f []string) string {
 	}
 	cs.seq++
 	cs.trace, cs.log, cs.actions, cs.curCtx = nil, nil, 0, nil
+	cs.dn = dnState{}
 	cs.curReq = httptest.NewRequest(method, url, nil)
 	cs.curRec = &dispRecWriter{cs: cs, seq: cs.seq, hdr: http.Header{}}
 	outcome := "ret"
@@ -827,6 +835,7 @@ func (cs *dcase) serve(f []string) string {
 		if f[0] == "serveh" && !cs.isTwin && cs.lastCtx != nil {
 			dispStat("requests_through_HandleContext", 1)
 			c := cs.lastCtx.Copy()
+			c.Errors = nil // Copy() shares the array of Errors with the pooled context it was taken from
 			c.Init(cs.curRec, cs.curReq)
 			cs.router.HandleContext(c)
 		} else {
@@ -871,6 +880,9 @@ func isChainEvent(e string) bool {
 }
 
 func (cs *dcase) containment(outcome string) {
+	if cs.dn.used {
+		return // a nested request ran inside this one (its events are in the same trace) or the connection was hijacked
+	}
 	if cs.anyPH {
 		return // an in-chain PanicsHandler recovers first; its behaviour is compared with the model only
 	}
@@ -1357,6 +1369,7 @@ func (panicEngine) Corpus() []Case {
 			"onpanic gt:" + keyRec + ",aw:500", "serve r 1 - -", "serveh r 2 - -"}, Tag: "corpus-abort-hook"},
 		// AbortWithStatus with message in the chain, committed before the panic: the hook's status is not sent
 		{Ops: []string{"new 0 1", "route 1 d1 1 em:1,nx," + boom + " am:401:" + hx("denied") + ",em:2", "onpanic aw:500,dp", "serve r 1 7661 -", "serve na 1 7661 -", "serve r 1 7661 -"}, Tag: "corpus-abort-hook"},
+		dnPanicCorpus()[0], dnPanicCorpus()[1],
 	}
 }
 
@@ -1444,6 +1457,7 @@ func (panicEngine) Gen(r *Rand, tier string) Case {
 	if ah {
 		tag += "+aborthook"
 	}
+	ops, tag = dnPanicStream(g, c, ops, tag)
 	return Case{Ops: ops, Tag: "hook=" + tag}
 }
 
@@ -1614,6 +1628,7 @@ func (ctxEngine) Corpus() []Case {
 			"serve r 1 - -", "serve r 3 - -", "serve r 2 - -", "serve r 1 - -", "serve nf 0", "serve r 2 - -"}, Tag: "corpus-sethandlers"},
 		// the same through HandleContext, with a group route as the target, its own slice as the source, a 405 in between
 		{Ops: []string{"new 1 1", "route 1 d1 2 em:1,nx em:2,nx em:3,nx dp,sh:1", "route 2 s 0 dp,sh:1", "serve r 1 7661 -", "serve na 2 - -", "serve r 1 7661 -", "serve r 2 - -", "serveh r 2 - -", "serve nf 1", "serveh r 1 7662 -"}, Tag: "corpus-sethandlers"},
+		dnCtxCorpus()[0], dnCtxCorpus()[1], dnCtxCorpus()[2],
 	}
 }
 
@@ -1694,5 +1709,6 @@ func (ctxEngine) Gen(r *Rand, tier string) Case {
 	if dxSetHandlersStream(g, c, &serves) {
 		tag += " sethandlers"
 	}
+	tag += dnCtxStreams(g, c, &serves)
 	return Case{Ops: append(c.ops(), serves...), Tag: tag}
 }
